@@ -1030,6 +1030,11 @@ func (in *Interp) exactScaledInt(t *sym.Term, d *types.Basic) *sym.Term {
 		neg = true
 		t = t.Args[0]
 	}
+	rnd := false
+	if t.Op == sym.OpFRnd && t.P0 == 0 {
+		rnd = true
+		t = t.Args[0]
+	}
 	k := 0
 	base := t
 	if t.Op == sym.OpFMul && t.Args[1].IsConst() {
@@ -1056,6 +1061,13 @@ func (in *Interp) exactScaledInt(t *sym.Term, d *types.Basic) *sym.Term {
 		r = x
 	case k > 0:
 		r = c.Mul(x, c.BVC(64, uint64(1)<<uint(k)))
+	case rnd:
+		// math.Round: half away from zero
+		sh := c.BVC(64, uint64(-k))
+		h := c.BVC(64, uint64(1)<<uint(-k-1))
+		pos := c.LShr(c.Add(x, h), sh)
+		ng := c.Neg(c.LShr(c.Add(c.Neg(x), h), sh))
+		r = c.Ite(c.SLt(x, c.BVC(64, 0)), ng, pos)
 	default:
 		r = c.SDiv(x, c.BVC(64, uint64(1)<<uint(-k))) // Go's conversion truncates toward zero like SDiv
 	}
